@@ -38,6 +38,13 @@ fn main() {
             let prop = find_prop(&args[2]);
             exec1_main(&*prop, &args[3..])
         }
+        "describe" => {
+            // mc describe <ID> <tier> <cfg> <seg> <idx>: print the case an index denotes
+            let prop = find_prop(&args[2]);
+            let tier = Tier::parse(&args[3]);
+            println!("{}", prop.describe(tier, &args[4], args[5].parse().unwrap(), args[6].parse().unwrap()));
+            0
+        }
         "replay" => replay_main(&|id| find_prop(id), &args[2]),
         "c20run" => props::repro::c20run_main(&args[2..]),
         "symshards" => {
